@@ -15,6 +15,45 @@ CHECKS = {
         design="6/C01"),
 }
 
+MC = "symbolic execution of rustc MIR (path enumeration) + z3 SMT feasibility/obligation queries, native replay"
+CHECKS.update({
+    "C02": dict(
+        text="Bounded symbolic model checking of the real code: raw token kinds (incl. whitespace/comments) are solver variables; "
+             "LexedStr::to_input, the whole parser and LexedStr::intersperse_trivia (with Builder) are executed from MIR with a recording "
+             "sink; on every path the Token steps are proved to tile the raw token table exactly once in order, composites to span exactly "
+             "the raw tokens that spell them, and the tree to be a single SOURCE_FILE root.",
+        note="Trusted: rowan's builder (concatenates token texts, derives ranges), MIR dump, stubs, z3. Token text is opaque. Bounds: "
+             "<= 2 (quick) / 3 (thorough) raw tokens over the full alphabet, <= 4 / 5 over the composite-operator sub-alphabet.",
+        technique=MC, design="6/C02"),
+    "C04": dict(
+        text="Every statement skeleton of the reference grammar (/verif/spec/grammar.py; terminals are token classes decided by the solver, "
+             "operator slots cover all spellings, joint bits free) is executed through the real parser (MIR); obligation on every path: no "
+             "Error event. Failures are replayed natively; parser gaps already known are listed in known_findings.json by solver-checked pattern.",
+        note="Trusted: the skeleton grammar is a faithful excerpt of the OpenQASM 3 grammar; MIR dump, stubs, z3. Bounds: expression depth 1 "
+             "(quick) / 2 (thorough), statements <= 16 / 28 tokens; identifier and literal texts are outside (C15).",
+        technique=MC, design="6/C04"),
+    "C05": dict(
+        text="Part (a) precedence/associativity: expression skeletons with symbolic operator slots are parsed by the real parser (MIR); for "
+             "every operator assignment the solver admits on a path (all 19x19 pairs, unary x binary, with call/index/paren/cast operands) "
+             "the parser's nesting is compared with a reference precedence-climbing parser over the OpenQASM 3 table. Part (b) (typed accessor "
+             "roles) is not claimed (needs the AST boundary).",
+        note="Trusted: operator table in /verif/spec/grammar.py; MIR dump, stubs, z3. Bounds: <= 3 operators (quick) / 4 (thorough) per expression.",
+        technique=MC, design="6/C05"),
+    "C12": dict(
+        text="(a) every StrStep::Error position is a raw-token start or the end of input; (b) a path with no Error event has no ERROR node and "
+             "provably no ERROR token, proved on every path of the real to_input/parse/intersperse_trivia code with symbolic raw token kinds; "
+             "(d) SemanticError::range is structurally node.text_range() in the MIR.",
+        note="Trusted: rowan text ranges, MIR dump, stubs, z3. Raw-token starts are char boundaries by C14. Bounds: <= 2 / 3 raw tokens full "
+             "alphabet, <= 3 / 4 over the error-recovery sub-alphabet. Literal-escape offsets (validation.rs) not yet covered.",
+        technique=MC, design="6/C12"),
+    "C16": dict(
+        text="Three runs of the real parser (MIR) on shared symbolic tokens: T[..k], T[k..] and T (also T inside gate/def/if/while/for/case "
+             "block bodies). Whenever both parts parse without an Error event, the whole is proved to parse without Error and its statement "
+             "list to be the concatenation (node kinds proved equal by the solver).",
+        note="Trusted: MIR dump, stubs, z3. Bounds: <= 3 (quick) / 4 (thorough) tokens, every split point, full alphabet, joint bits symbolic.",
+        technique=MC, design="6/C16"),
+})
+
 NOT_YET = {}
 
 
